@@ -11,7 +11,21 @@ class BoomBase(BaseException):
     """a failure that is not an Exception (like SystemExit, asyncio.CancelledError, pytest's Failed)"""
 
 
-EXC = {"Boom": Boom, "BoomBase": BoomBase, "SystemExit": SystemExit, "StopIteration": StopIteration, "KeyboardInterrupt": KeyboardInterrupt}
+class BoomFalsy(Exception):
+    """an exception whose instances are falsy (a container-like exception with a length of 0)"""
+
+    def __len__(self):
+        return 0
+
+
+class PicklingRaisesIndexError:
+    """an argument whose pickling raises IndexError (a buggy __getstate__ / __reduce__ indexing an empty list)"""
+
+    def __reduce__(self):
+        raise IndexError("pickling this argument indexes an empty list")
+
+
+EXC = {"BoomFalsy": BoomFalsy, "Boom": Boom, "BoomBase": BoomBase, "SystemExit": SystemExit, "StopIteration": StopIteration, "KeyboardInterrupt": KeyboardInterrupt}
 
 
 def clog_task(i, tag, exc, stuck_s):
